@@ -12,6 +12,7 @@ import (
 	"fmt"
 	"io"
 	mrand "math/rand"
+	"strconv"
 	"strings"
 	"sync"
 	"time"
@@ -271,6 +272,77 @@ func apalacheCfg() []string {
 	return []string{"--cinit=CInit"}
 }
 
+// scryptWorkPerCall: the work bound is per call, not per stanza. A header (or a stanza list handed to Unwrap directly)
+// with many well-formed passphrase stanzas, each within the maximum, must not make one call derive more than the
+// configured maximum's worth of work: the sum of 2^logN over the derivations of one call is at most 2^max.
+func scryptWorkPerCall(run *vk.Run) {
+	prev := verifhook.EmitFn
+	defer func() { verifhook.EmitFn = prev }()
+	var mu sync.Mutex
+	work := 0
+	verifhook.EmitFn = func(name string, args ...int) {
+		if prev != nil {
+			prev(name, args...)
+		}
+		if name == "scrypt.derive" && len(args) > 0 && args[0] < 30 {
+			mu.Lock()
+			work += 1 << uint(args[0])
+			mu.Unlock()
+		}
+	}
+	mk := func(logN int) *age.Stanza {
+		salt := make([]byte, 16)
+		body := make([]byte, 32)
+		rand.Read(salt)
+		rand.Read(body)
+		return &age.Stanza{Type: "scrypt", Args: []string{base64.RawStdEncoding.EncodeToString(salt), strconv.Itoa(logN)}, Body: body}
+	}
+	x := &age.Stanza{Type: "X25519", Args: []string{"TEiF0ypqr+bpvcqXNyCVJpL7OuwPdVwPL7KQEbFDOCc"}, Body: make([]byte, 32)}
+	for _, max := range []int{6, 10} {
+		for _, layout := range [][]*age.Stanza{{mk(max), mk(max)}, {mk(max), mk(max), mk(max), mk(max)}, {mk(1), mk(max), mk(max - 1)}, {x, mk(max), mk(max)}, {mk(max), x, mk(max)},
+			{mk(max), mk(max), mk(max), mk(max), mk(max), mk(max), mk(max), mk(max), mk(max), mk(max), mk(max), mk(max), mk(max), mk(max), mk(max), mk(max)}} {
+			for _, via := range []string{"Unwrap", "Decrypt"} {
+				id, err := age.NewScryptIdentity("not the passphrase of any of them")
+				if err != nil {
+					vk.Infra("%v", err)
+				}
+				id.SetMaxWorkFactor(max)
+				mu.Lock()
+				work = 0
+				mu.Unlock()
+				func() {
+					defer func() {
+						if p := recover(); p != nil {
+							run.Violation("C14:panic:scrypt-many-stanzas", fmt.Sprint(p), nil)
+						}
+					}()
+					if via == "Unwrap" {
+						id.Unwrap(layout)
+					} else {
+						h := &format.Header{MAC: make([]byte, 32)}
+						for _, s := range layout {
+							h.Recipients = append(h.Recipients, (*format.Stanza)(s))
+						}
+						var b bytes.Buffer
+						h.Marshal(&b)
+						b.Write(make([]byte, 64))
+						age.Decrypt(&b, id)
+					}
+				}()
+				run.Eval(1)
+				mu.Lock()
+				wk := work
+				mu.Unlock()
+				sig := fmt.Sprintf("stanzas=%d/max=%d/%s", len(layout), max, via)
+				if wk > 1<<uint(max) {
+					run.Violation("C14:work-above-maximum:per-call:"+sig, fmt.Sprintf("one %s call on %d stanzas with maximum work factor %d did scrypt work %d (= %.1f x 2^%d)", via, len(layout), max, wk, float64(wk)/float64(int(1)<<uint(max)), max), map[string]interface{}{"check": "C14.workpercall", "stanzas": len(layout), "max": max, "via": via})
+				}
+				run.Distinct("work-per-call:" + sig)
+			}
+		}
+	}
+}
+
 // Run is the C14 check.
 func Run(tier string) {
 	run := vk.NewRun("C14", tier, "exploration")
@@ -335,6 +407,26 @@ func Run(tier string) {
 			inputs = append(inputs, input{"confusable:" + hrp, []byte(hrp + "1" + tailS)})
 		}
 	}
+	// every printable ASCII character (and a few bytes outside) in every third position of a valid native recipient,
+	// native identity and plugin recipient, upper- and lower-case carriers: table-driven decoders index by character
+	{
+		xid := w.XIdentity("x1")
+		carriers := []string{xid.Recipient().String(), xid.String(), strings.ToLower(xid.String()), plugin.EncodeRecipient("vscript", []byte("some plugin data")), "age1qqqqqqq", "AGE-PLUGIN-X-1QQQQQQQ"}
+		for ci, s := range carriers {
+			for pos := 0; pos < len(s); pos += 3 {
+				for c := 32; c <= 128; c++ {
+					b := []byte(s)
+					b[pos] = byte(c)
+					inputs = append(inputs, input{fmt.Sprintf("keystring-char:%d", ci), b})
+				}
+			}
+			for c := 32; c <= 128; c++ { // also as the last character and appended
+				b := []byte(s)
+				b[len(b)-1] = byte(c)
+				inputs = append(inputs, input{fmt.Sprintf("keystring-char:%d", ci), b}, input{fmt.Sprintf("keystring-char:%d", ci), append([]byte(s), byte(c))})
+			}
+		}
+	}
 	tg := targets(w)
 	var skipped int64
 	vk.Parallel(len(inputs), 16, func(i int) {
@@ -370,6 +462,7 @@ func Run(tier string) {
 	})
 	_ = skipped
 	c16.HostileForC14(run)
+	scryptWorkPerCall(run)
 	hookMu.Lock()
 	wd := worstDerive
 	hookMu.Unlock()
